@@ -44,6 +44,9 @@ type AtomInfo struct {
 	Re    *regexp.Regexp // host-side class regex (anchored), for fast paths
 	Not   []string       // literals excluded from the class
 	Group string         // atoms in the same non-empty group are pairwise distinct
+	// NoBytes: bytes that (by the asserted class constraint) never occur in
+	// the atom; "ctl" stands for all control characters incl. newline.
+	NoBytes string
 }
 
 // Ctx is the symbolic context of one path.
@@ -457,4 +460,27 @@ func (c *Ctx) Concretize(v value, lo, hi int64) int64 {
 func (c *Ctx) Model(extra ...string) (Result, map[string]string) {
 	terms := append(append(append([]string{}, c.IntVars...), c.StrVars...), extra...)
 	return c.CheckModel("true", terms)
+}
+
+// AtomExcludes reports whether the class constraint asserted for atom name
+// rules out every byte of sep (host-side knowledge mirroring the asserted
+// regular expression; avoids very slow str.contains queries).
+func (c *Ctx) AtomExcludes(name, sep string) bool {
+	ai := c.Atoms[name]
+	if ai == nil {
+		return false
+	}
+	for i := 0; i < len(sep); i++ {
+		b := sep[i]
+		if b < 0x20 || b == 0x7f {
+			if !strings.Contains(ai.NoBytes, "ctl") {
+				return false
+			}
+			continue
+		}
+		if !strings.ContainsRune(ai.NoBytes, rune(b)) {
+			return false
+		}
+	}
+	return true
 }
